@@ -94,7 +94,7 @@ Section Storage.
 
   Lemma step_T st op : T st -> T (step o st op).
   Proof.
-    intros H. destruct op as [n|ns|]; cbn [step].
+    intros H. destruct op as [n|ns| |ns]; cbn [step]; [| | |exact (fold_offer_T ns st H)].
     - assert (H1 : T (run_quiet o (offer o st n))) by (apply pump_T, offer_T, H).
       destruct (is_wfr o); [rewrite (flush_cur_T _ H1); exact (pump_T _ _ H1)|exact H1].
     - apply pump_T. exact (fold_offer_T ns st H).
@@ -146,10 +146,10 @@ Lemma exporter_balance_persistent_l o outs ops :
   o_sig o <> Profiles -> Forall eop_nonneg ops ->
   is_storage o = true -> batch_cfg o = None ->
   let st := run_exporter o outs ops in
-  s_wfr_failed st = 0 -> s_shut st = 0 ->
+  s_shut st = 0 ->
   balance o st.
 Proof.
-  intros Hsig F Hst Hnb st Hw Hs.
+  intros Hsig F Hst Hnb st Hs.
   assert (Hb : valid_batch o) by (intros mn mx H; rewrite Hnb in H; discriminate).
   pose proof (exporter_excess_l o outs ops Hsig Hb F) as A. cbn zeta in A. fold st in A.
   pose proof (exporter_stored_l o outs ops Hsig Hst Hnb) as B. cbn zeta in B. fold st in B.
@@ -162,7 +162,7 @@ Lemma exporter_persistent_excess_l o outs ops :
   is_storage o = true -> batch_cfg o = None ->
   let st := run_exporter o outs ops in
   lget (ExpSent (o_sig o)) (s_led st) + lget (ExpFailed (o_sig o)) (s_led st) + lget (ExpEnqFailed (o_sig o)) (s_led st)
-  = s_offered st - s_stored st + s_shut st + s_wfr_failed st.
+  = s_offered st - s_stored st + s_shut st.
 Proof.
   intros Hsig F Hst Hnb st.
   assert (Hb : valid_batch o) by (intros mn mx H; rewrite Hnb in H; discriminate).
